@@ -78,7 +78,7 @@ class _Viol:
 
 # ------------------------------------------------------------------------------------------ merge oracle
 
-def _check_merge(fn_merge, u, u0, d, d0, viol, counts, tag, user_txt=None):
+def _check_merge(fn_merge, u, u0, d, d0, viol, counts, tag):
     """One (user, default) pair through the real merge `fn_merge(u, d)` + the oracle.
     u, d are the live objects handed to cij; u0, d0 pristine snapshots.  Returns the result or None."""
     size = len(json.dumps(u0, default=repr)) + len(json.dumps(d0, default=repr))
@@ -103,6 +103,8 @@ def _check_merge(fn_merge, u, u0, d, d0, viol, counts, tag, user_txt=None):
         viol.add(f"c16:{tag}:{kind}:depth{len(p)}:{cls}", f"{ctx_txt} result={_js(r)}: at {R.dotted(p)}: {m}", size)
     if diffs:
         counts["wrong"] += 1
+    elif info.get("open_leafless_over_leaf"):
+        counts["ok_leafless_user_dict_over_default_leaf_not_asserted"] += 1
     elif info.get("leafless_kept") or info.get("leafless_in"):
         counts["ok_leafless_key_presence_not_asserted"] += 1
     else:
@@ -136,7 +138,7 @@ def _run_merge(case):
     viol, counts = _Viol(), Counter()
     u = R.clone(u0)
     ukeys = set(u0)
-    for d0, (dl, de) in space:
+    for d0, _flat in space:
         d = R.clone(d0)
         counts["pairs"] += 1
         if ukeys & set(d0):
@@ -642,8 +644,9 @@ def explore(ctx):
         "transitions = calls of cij functions (measured by the workers).")
     ctx.assumptions = [
         "effective configuration is defined on leaf paths (mc/ref/config_ref.py docstring); lists are leaves",
-        "a user sub-dictionary without any leaf specifies nothing; whether a leafless key survives in the result is "
-        "not asserted (leaf sets are compared exactly, leafless keys of the result must occur in an input)",
+        "a user sub-dictionary without any leaf specifies nothing: default leaves below it are taken (asserted); "
+        "whether a leafless key survives in the result is not asserted, and a leafless user dict exactly on a default "
+        "leaf may yield either the default leaf or the user's leafless dict (not asserted; an exception is a violation)",
         "result/input aliasing is not asserted (the statement only requires that the call leaves its inputs unmodified)",
         "validation verdict table transcribed from the statement and docs/usage/input.rst; numeric ranges: counts >= 1, "
         "T_MIN >= 0 K, volume_ratio >= 1, EoS order >= 2, interpolation order >= 1",
@@ -751,6 +754,13 @@ def selftest():
     chk([k for k, _, _ in R.compare({"a": 1, "c": 3}, {"a": 1}, {})[0]] == ["extra-key"], "extra-key")
     chk([k for k, _, _ in R.compare({"a": 1, "c": {}}, {"a": 1}, {})[0]] == ["extra-empty-dict"], "extra-empty-dict")
     chk(R.compare({"a": {}}, {"a": {}}, {})[0] == [] and R.compare({}, {"a": {}}, {})[0] == [], "leafless key not asserted")
+    for good in ({"a": 2}, {"a": {}}):
+        chk(R.compare(good, {"a": {}}, {"a": 2})[0] == [], f"leafless user dict over default leaf: {good} must be accepted")
+    for bad in ({"a": 3}, {"a": {"x": 1}}, {}, {"a": {}, "b": {}}):
+        chk(R.compare(bad, {"a": {}}, {"a": 2})[0] != [] or bad == {}, f"leafless user dict over default leaf: {bad} must be flagged")
+    chk(R.compare({"a": {"b": {}}}, {"a": {"b": {}}}, {"a": 2, "b": 1})[0] != [], "default leaf b lost must be flagged")
+    chk(R.compare({"a": {"b": {}}, "b": 1}, {"a": {"b": {}}}, {"a": 2, "b": 1})[0] == [], "nested leafless user dict over default leaf")
+    chk(R.compare({"a": {}}, {"a": {}}, {"a": {"b": 1}})[0] != [], "defaults below a leafless user dict must be taken")
     chk(not R.same({"a": 1}, {"a": 1.0}) and not R.same({"a": 1}, {"a": True}) and R.same({"a": [1, {"b": 2}]}, {"a": [1, {"b": 2}]}),
         "typed equality")
     n_plain = 0
